@@ -170,7 +170,7 @@ Proof.
     pose proof (overlay_pack_fixed_ok t p f Gt Hg Hok Hs) as P.
     destruct (overlay_pack_fixed t p f) as [[c r]|e]; cbn [bind fst snd]; [|exact P].
     destruct P as [Hc Hr].
-    pose proof (overlay_body_ok t b p c r f Gt Gb Hb (proj1 Hg) Hok Hc Hr) as B.
+    pose proof (overlay_body_ok 1 t b p c r f ltac:(lia) Gt Gb Hb (proj1 Hg) Hok Hc Hr) as B.
     destruct (overlay_body t b p c r f) as [d|e]; cbn [bind validate]; [|exact B].
     destruct B as [B1 [B2 [B3 B4]]]. repeat split; auto. congruence.
 Qed.
